@@ -116,6 +116,11 @@ def check(ctx):
         body = Body(fx.fn(k)); dg = D.Dag(body)
         reads = [(b, c) for (b, c) in body.calls if c.get("f") in ("std::ptr::read", "core::ptr::read")]
         rels = [(b, c) for (b, c) in body.calls if c.get("fname") in ("release_leaked_internal",)]
+        if not rels:
+            # the release helper was merged into this function: the release is the head advance itself (store to `head` / commit CAS on `head`)
+            import guards as _g
+            rels = [(a["b"], None) for a in _g.accesses(body, adt, {"head"}) if a["kind"] == "w"][:1] + \
+                   [(b, c) for (b, c) in body.calls if (R.atomic_target(body, c) or (0, 0, ""))[1:2] == ("head",) and "compare_exchange" in (R.atomic_target(body, c) or (0, 0, ""))[2]][:1]
         ok = len(reads) == 1 and len(rels) == 1 and body.dominates(reads[0][0], rels[0][0])
         ctx.ob("R01.1", f"{k}|read-before-release", ok, f"{body.f['file']}:{body.f['line']}", "the slot is copied out (ptr::read) before it is released for reuse, once each")
         r0 = strip_casts(dg.local(0))
